@@ -25,6 +25,9 @@ enum Ep {
     TokenTransferFromNoAllowance,
     TokenBurnFromNoAllowance,
     TokenMintFrom,
+    /// the holder B sets A's allowance to zero (B is the named address here); afterwards A's
+    /// delegated operations against B must be refused
+    TokenRevoke,
     GasPay,
     GasAdd,
     GwCallContract,
@@ -37,8 +40,8 @@ enum Ep {
     OperatorsExecute,
     ExampleSend,
 }
-const EPS: [Ep; 19] = [
-    Ep::TokenApprove, Ep::TokenTransfer, Ep::TokenTransferFrom, Ep::TokenBurn, Ep::TokenBurnFrom, Ep::TokenTransferFromNoAllowance, Ep::TokenBurnFromNoAllowance, Ep::TokenMintFrom,
+const EPS: [Ep; 20] = [
+    Ep::TokenApprove, Ep::TokenTransfer, Ep::TokenTransferFrom, Ep::TokenBurn, Ep::TokenBurnFrom, Ep::TokenTransferFromNoAllowance, Ep::TokenBurnFromNoAllowance, Ep::TokenMintFrom, Ep::TokenRevoke,
     Ep::GasPay, Ep::GasAdd, Ep::GwCallContract, Ep::GwValidateMessage, Ep::ItsDeploy, Ep::ItsDeployRemote,
     Ep::ItsDeployRemoteCanonical, Ep::ItsTransfer, Ep::ItsTransferCanonical, Ep::OperatorsExecute, Ep::ExampleSend,
 ];
@@ -84,6 +87,8 @@ struct Model {
     /// messages approved for A / K already consumed
     consumed: [bool; 2],
     successes: u8,
+    /// B revoked A's allowance
+    revoked: bool,
 }
 
 struct Ctx {
@@ -125,7 +130,7 @@ impl C07 {
         let env = &w.env;
         let target_of = |ep: Ep| -> Address {
             match ep {
-                Ep::TokenApprove | Ep::TokenTransfer | Ep::TokenTransferFrom | Ep::TokenBurn | Ep::TokenBurnFrom | Ep::TokenTransferFromNoAllowance | Ep::TokenBurnFromNoAllowance | Ep::TokenMintFrom => ctx.tok.clone(),
+                Ep::TokenApprove | Ep::TokenTransfer | Ep::TokenTransferFrom | Ep::TokenBurn | Ep::TokenBurnFrom | Ep::TokenTransferFromNoAllowance | Ep::TokenBurnFromNoAllowance | Ep::TokenMintFrom | Ep::TokenRevoke => ctx.tok.clone(),
                 Ep::GasPay | Ep::GasAdd => iw.gas.clone(),
                 Ep::GwCallContract | Ep::GwValidateMessage => iw.gw.clone(),
                 Ep::OperatorsExecute => ctx.ops.clone(),
@@ -154,6 +159,8 @@ impl C07 {
             Ep::TokenTransferFromNoAllowance => ("transfer_from", vec![n, ctx.s.to_val(), ctx.b.to_val(), amt]),
             Ep::TokenBurnFromNoAllowance => ("burn_from", vec![n, ctx.s.to_val(), amt]),
             Ep::TokenMintFrom => ("mint_from", vec![n, ctx.s.to_val(), amt]),
+            // revocation: holder B approves A for zero (the named, authorising address is B)
+            Ep::TokenRevoke => ("approve", vec![ctx.b.to_val(), ctx.a.to_val(), w.v(0i128), w.v(w.seq() + 500)]),
             Ep::GasPay => ("pay_gas", vec![ctx.s.to_val(), sv("chain"), sv("addr"), to_val(env, &sbytes(b"pl")), n, gas(if named == Named::Target { 1 } else if alt { 2 } else { 1 }), to_val(env, &sbytes(b""))]),
             Ep::GasAdd => ("add_gas", vec![ctx.s.to_val(), sv("msg"), n, gas(if named == Named::Target { 1 } else if alt { 2 } else { 1 })]),
             Ep::GwCallContract => ("call_contract", vec![n, sv("chain"), sv("addr"), to_val(env, &sbytes(if alt { b"other" } else { b"payld" }))]),
@@ -163,7 +170,7 @@ impl C07 {
             }
             Ep::ItsDeploy => {
                 let salt = SALTS[1 + (m.salts_used[who_ix] as usize).min(2)];
-                ("deploy_interchain_token", vec![n, to_val(env, &sbytes(&salt)), to_val(env, &metadata_scval(if alt { b"Other" } else { b"Token" }, b"TOK", 7)), w.v(0i128), to_val(env, &ScVal::Void)])
+                ("deploy_interchain_token", vec![n, to_val(env, &sbytes(&salt)), to_val(env, &metadata_scval(if alt { b"Other" } else { b"Token" }, b"TOK", 7)), w.v(0i128), ctx.b.to_val()])
             }
             Ep::ItsDeployRemote => ("deploy_remote_interchain_token", vec![n, to_val(env, &sbytes(&SALTS[0])), sv(X), gas1]),
             Ep::ItsDeployRemoteCanonical => ("deploy_remote_canonical_token", vec![iw.assets[0].to_val(), sv(X), n, gas1]),
@@ -189,7 +196,7 @@ impl Scenario for C07 {
     fn id(&self) -> &'static str { "C07" }
     fn n_configs(&self) -> usize { 1 }
     fn config_label(&self, _: usize) -> String {
-        "all contracts; named address A (and a contract K) with balances, mutual allowances, minter and operator roles, approved messages, deployed tokens, trusted chain".into()
+        "all contracts; named address A (and a contract K) with balances, mutual allowances, allowances toward every contract of the system, minter and operator roles, approved messages, deployed tokens, trusted chain".into()
     }
     fn world<'a>(&self, ctx: &'a Ctx) -> &'a World { &ctx.iw.w }
 
@@ -228,6 +235,15 @@ impl Scenario for C07 {
             setup(&tok, "approve", &[b.to_val(), who.to_val(), w.v(500i128), w.v(far)]);
             setup(&tok, "approve", &[who.to_val(), b.to_val(), w.v(500i128), w.v(far)]);
         }
+        // allowances that exist for other purposes: A and K have approved every contract of the
+        // system on every token; no entry point may use them in place of an authorisation
+        for who in [&a, &k] {
+            for spender in [&iw.gas, &iw.its, &iw.gw, &ops, &example] {
+                setup(&tok, "approve", &[who.to_val(), spender.to_val(), w.v(700i128), w.v(far)]);
+                setup(&iw.gas_token, "approve", &[who.to_val(), spender.to_val(), w.v(700i128), w.v(far)]);
+                setup(&iw.assets[0], "approve", &[who.to_val(), spender.to_val(), w.v(700i128), w.v(far)]);
+            }
+        }
         assert!(iw.set_trusted(X).ok);
         // tokens deployed by A and by K with SALTS[0]; seats for every salt either may use
         let mut ids = vec![];
@@ -257,7 +273,7 @@ impl Scenario for C07 {
         let (t1_id, t1k_id) = (ids[0], ids[1]);
         (
             Ctx { iw, tok, ops, probe, example, a, b, s, k, t1_id, t1k_id, t2_id },
-            Model { salts_used: [0, 0], consumed: [false, false], successes: 0 },
+            Model { salts_used: [0, 0], consumed: [false, false], successes: 0, revoked: false },
         )
     }
 
@@ -267,6 +283,9 @@ impl Scenario for C07 {
             for var in VARS {
                 // successful operations are bounded so that preconditions (balances, salts) hold
                 if m.successes >= self.max_successes && matches!(var, Var::Named | Var::AsCallingContract | Var::NamedRootOnly) {
+                    continue;
+                }
+                if ep == Ep::TokenRevoke && !matches!(var, Var::Counterparty | Var::Named | Var::Stranger | Var::Nobody) {
                     continue;
                 }
                 // a calling contract would have to pre-authorise the nested debits itself
@@ -334,7 +353,22 @@ impl Scenario for C07 {
         };
         out.accepted = call.ok;
         let no_allowance = matches!(ep, Ep::TokenTransferFromNoAllowance | Ep::TokenBurnFromNoAllowance);
+        // the revocation is B's own operation: accepted iff B (the counterparty principal) signs
+        if ep == Ep::TokenRevoke {
+            let want = a.var == Var::Counterparty;
+            out.expect(call.ok == want, "auth.outcome", || format!("revocation by {:?}: ok={} ({})", a.var, call.ok, call.err));
+            if call.ok && want {
+                m.revoked = true;
+            } else if !call.ok {
+                out.expect(h0 == w.state_hash(), "refused-but-changed-state", || format!("{:?}", a));
+            }
+            return;
+        }
+        let revoked_for_a = m.revoked
+            && matches!(ep, Ep::TokenTransferFrom | Ep::TokenBurnFrom)
+            && !matches!(a.var, Var::AsCallingContract);
         let want = !no_allowance
+            && !revoked_for_a
             && match a.var {
                 Var::Named | Var::AsCallingContract => true,
                 Var::NamedRootOnly => !self.nested(ep),
@@ -373,7 +407,7 @@ fn main() {
         let thorough = tier == "thorough";
         let mut o = Opts::new(tier, if thorough { 4 } else { 2 });
         o.min_depth = 2;
-        o.rule = "19 entry points (token approve / transfer / transfer_from / burn / burn_from / transfer_from and burn_from against a holder who granted no allowance (always refused) / mint_from; gas pay_gas / add_gas; gateway call_contract / validate_message; ITS deploy_interchain_token / deploy_remote_interchain_token / deploy_remote_canonical_token / interchain_transfer of a service-deployed and of a canonical token; operators execute; example send) x 12 authorisation modes {the named address; the counterparty / recipient; the contracts' owner; a stranger; nobody; the named address for an altered argument; the named address for the root call but not the nested debit or gas payment; the named address for the same function with other arguments; the named address being the calling contract; a contract naming someone else; the call naming the called contract itself with nobody authorising; all amounts and gas zero with nobody authorising}, in every state of all histories of successful operations up to the bound; accepted only in the three legitimate modes, ledger bit-identical otherwise".into();
+        o.rule = "20 entry points (token approve / transfer / transfer_from / burn / burn_from / transfer_from and burn_from against a holder who granted no allowance (always refused) / mint_from / a revocation by the holder after which the spender's delegated calls are refused; gas pay_gas / add_gas; gateway call_contract / validate_message; ITS deploy_interchain_token (naming the counterparty as minter) / deploy_remote_interchain_token / deploy_remote_canonical_token / interchain_transfer of a service-deployed and of a canonical token; operators execute; example send) x 12 authorisation modes {the named address; the counterparty / recipient; the contracts' owner; a stranger; nobody; the named address for an altered argument; the named address for the root call but not the nested debit or gas payment; the named address for the same function with other arguments; the named address being the calling contract; a contract naming someone else; the call naming the called contract itself with nobody authorising; all amounts and gas zero with nobody authorising}, in every state of all histories of successful operations up to the bound; accepted only in the three legitimate modes, ledger bit-identical otherwise".into();
         (C07 { max_successes: if thorough { 4 } else { 2 } }, o)
     });
 }
